@@ -99,6 +99,11 @@ def check_case(case) -> Outcome:
         kept = [i for i, v in enumerate(case["values"]) if v is not None]
         fr = F.take_rows(fr, kept)
     vk = {"k": "cat", "col": "v"} if textual else {"k": "num", "col": "v"}
+    if dt == "category" and case.get("explicit_levels") and len(case["categories"]) >= 2:
+        # the same categories requested through C(v, levels=[...]) in another order than the dtype declares them
+        cats_ = list(case["categories"])
+        vk = {"k": "C", "col": "v", "contrast": None, "levels": cats_[1:] + cats_[:1]}
+        out.label("explicit-levels-other-order")
     fmap = {"v": vk, "a": {"k": "num", "col": "a"}, "B": {"k": "cat", "col": "B"}}
     terms = [[fmap[x] for x in t] for t in FORMULAS[case["formula"] % len(FORMULAS)]]
     fc = {"intercept": case["intercept"], "terms": F.normalize_terms(terms)}
@@ -192,6 +197,7 @@ def gen():
             "output": draw(st.sampled_from(["pandas", "numpy", "sparse"])), "efr": draw(st.booleans()),
             "nulls": draw(st.one_of(st.just([]), st.just([]), st.lists(st.integers(0, 7), min_size=1, max_size=2))),
             "prime": draw(st.integers(0, 4)) == 0,
+            "explicit_levels": draw(st.integers(0, 3)) == 0,
             "allnull": dt in TEXT and draw(st.integers(0, 7)) == 0,
             "na_action": draw(st.sampled_from(["drop", "drop", "ignore"])),
         }
